@@ -48,6 +48,7 @@ pub fn budget(prop: &str, tier: &str, samples: &Samples) -> Budget {
                 + if thorough { crate::sweep::HUGE_CASES } else { 2 };
             Budget { runs: n + extra, exhaustive: 0, images: 0, base_runs: n }
         }
+        #[cfg(feature = "stream")]
         "C17" => {
             let _ = sc(1);
             let ex = crate::faults::generated_exhaustive(tier)
